@@ -213,7 +213,7 @@ func inToFixed(e ast.Expr) (col string, vals []Value) {
 func fixedAnd(fixed Fixed, col string, vals ...Value) (Fixed, bool) {
 	vs := make([]string, len(vals))
 	for i, v := range vals {
-		vs[i] = Pack(v.(Packable))
+		vs[i] = PackValue(v)
 	}
 	for i, f := range fixed {
 		if f.col == col {
